@@ -1,17 +1,21 @@
 #!/bin/sh
-# tools/check_refactor.sh : apply the kept behaviour-preserving refactoring (selftest/refactor/harmless_refactor.diff,
-# written by an independent sub-agent against /repo commit 498c6e0) to a scratch worktree of /repo HEAD and run every
+# tools/check_refactor.sh : apply each kept behaviour-preserving refactoring (selftest/refactor/*.diff, written by
+# independent sub-agents: a rename / restructure clean-up against /repo commit 498c6e0, a "performance and readability
+# pass" that rewrites z3 terms into equivalent ones against f13786f) to a scratch worktree of /repo HEAD and run every
 # check against it: each must exit 0 (NOTE lines about loops or helpers are fine).  Hunks that no longer apply
-# (buffer.py was repaired since) are left out.
-dir=/tmp/refactor-check.$$
-git -C /repo worktree add --detach "$dir" HEAD -q || exit 9
-(cd "$dir" && git apply --3way /verif/selftest/refactor/harmless_refactor.diff >/dev/null 2>&1; for f in $(git diff --name-only --diff-filter=U); do git checkout HEAD -- "$f"; echo "left out (conflict): $f"; done)
+# (files repaired since) are left out.
 rc=0
-for i in 01 02 03 04 05 06 07 08 09 10 11 12 13 14 15 16 17 18 19; do
-  out=$(PSVC_REPO="$dir" /verif/check C$i --no-evidence 2>&1)
-  code=$?
-  echo "C$i exit $code $(echo "$out" | grep -c '^NOTE') notes"
-  [ $code -ne 0 ] && { rc=1; echo "$out" | grep -E '^VIOLATION|^FAULT|^UNDEC' | head -5; }
+for patch in /verif/selftest/refactor/*.diff; do
+  dir=/tmp/refactor-check.$$
+  git -C /repo worktree add --detach "$dir" HEAD -q || exit 9
+  echo "== $(basename $patch)"
+  (cd "$dir" && git apply --3way "$patch" >/dev/null 2>&1; for f in $(git diff --name-only --diff-filter=U); do git checkout HEAD -- "$f"; echo "left out (conflict): $f"; done)
+  for i in 01 02 03 04 05 06 07 08 09 10 11 12 13 14 15 16 17 18 19; do
+    out=$(PSVC_REPO="$dir" /verif/check C$i --no-evidence 2>&1)
+    code=$?
+    echo "C$i exit $code $(echo "$out" | grep -c '^NOTE') notes"
+    [ $code -ne 0 ] && { rc=1; echo "$out" | grep -E '^VIOLATION|^FAULT|^UNDEC' | head -5; }
+  done
+  git -C /repo worktree remove --force "$dir"
 done
-git -C /repo worktree remove --force "$dir"
 exit $rc
